@@ -56,10 +56,21 @@ func (a Itv) Within(lo, hi float64) bool { return !a.Bot && a.Lo >= lo && a.Hi <
 
 func (a Itv) Eq(b Itv) bool { return a.Bot == b.Bot && (a.Bot || (a.Lo == b.Lo && a.Hi == b.Hi)) }
 
+// IntBits is the width of int/uint for the build configuration being analysed (set by Load).
+var IntBits = 64
+
 func typeRange(t types.Type) Itv {
 	b, ok := t.Underlying().(*types.Basic)
 	if !ok {
 		return itv(-math.MaxFloat64, math.MaxFloat64)
+	}
+	if IntBits == 32 {
+		switch b.Kind() {
+		case types.Int:
+			return itv(-2147483648, 2147483647)
+		case types.Uint, types.Uintptr:
+			return itv(0, 4294967295)
+		}
 	}
 	switch b.Kind() {
 	case types.Int8:
@@ -69,7 +80,8 @@ func typeRange(t types.Type) Itv {
 	case types.Int32:
 		return itv(-2147483648, 2147483647)
 	case types.Int64, types.Int:
-		return itv(-9223372036854775808, 9223372036854775807)
+		// the upper bound is the largest float64 below 2^63, so that -MinInt64 (= 2^63) is seen to overflow
+		return itv(-9223372036854775808, 9223372036854774784)
 	case types.Uint8:
 		return itv(0, 255)
 	case types.Uint16:
@@ -77,7 +89,7 @@ func typeRange(t types.Type) Itv {
 	case types.Uint32:
 		return itv(0, 4294967295)
 	case types.Uint64, types.Uint, types.Uintptr:
-		return itv(0, 18446744073709551615)
+		return itv(0, 18446744073709549568)
 	}
 	return itv(-math.MaxFloat64, math.MaxFloat64)
 }
